@@ -643,9 +643,10 @@ def parse_equation(equation: str) -> List[Symbol]:
             # previous entry
             if name in functions:
                 assert symbol == functions[name]
-            # Otherwise, store
+            # Otherwise, store (combining with any variable of the same
+            # name, to raise an error rather than silently drop it)
             else:
-                symbols[name] = symbol
+                symbols[name] = symbols.get(name, symbol).combine(symbol)
                 functions[name] = symbol
             continue
 
